@@ -253,6 +253,14 @@ func C09(c *core.Ctx) error {
 	add("function-local and literal-local interface types", false, func(root core.M, pcs, ics []core.M, files map[string]string, s *c09scn) {
 		files["a/local.go"] = "package a\n\nfunc f() {\n\ttype IA interface{ Other() }\n\ttype Loc interface{ L() }\n\tvar _ IA\n\tvar _ Loc\n}\n\nvar lit = func() {\n\ttype IA2 interface{ X() }\n\tvar _ IA2\n}\n"
 	})
+	// declarations that are legal Go but have no (usable) name in the package scope
+	add("blank-named interface type and other blank declarations", false, func(root core.M, pcs, ics []core.M, files map[string]string, s *c09scn) {
+		files["a/blank.go"] = "package a\n\ntype _ interface{ N() }\n\ntype _ struct{ F int }\n\ntype _ = IA\n\nvar _ IA\n\nfunc _() {}\n"
+	})
+	add("blank-named interface type in a package selected by all", false, func(root core.M, pcs, ics []core.M, files map[string]string, s *c09scn) {
+		files["b/blank.go"] = "package b\n\ntype _ interface{ N() }\n\ntype _[T any] interface{ G(T) }\n"
+		root["packages"].(core.M)[P("b")] = core.M{"config": core.M{"all": true}}
+	})
 	add("build-tagged file without build-tags (tag off)", false, func(root core.M, pcs, ics []core.M, files map[string]string, s *c09scn) {
 		files["a/tagged.go"] = "//go:build special\n\npackage a\n\ntype Tagged interface{ T() }\n"
 	})
@@ -425,6 +433,6 @@ func C09(c *core.Ctx) error {
 	c.Ev.Set("outcome_classes", classes)
 	c.Ev.Set("cases", len(scns))
 	c.Ev.Set("exhaustive", done == len(scns)*2)
-	c.Ev.Set("rule", "a valid 3-package configuration is perturbed by one fault at a time, the fault placed in each of the three packages and, where it can be written there, at package and interface level: missing listed interface (alone and with the package's interfaces selected through all / include-interface-regex / recursive at package or top level), missing package, type/syntax error, unknown template/formatter/key, unreadable / unparsable / failing template, schema-rejected template-data, cyclic and malformed templated values, invalid regexes, output the formatter rejects, output path occupied, existing file without force, conflicting mocks for one file (different source packages incl. same-named ones, pkgname, template), root-level and config-file-level faults; plus valid-but-unusual inputs (local types, build tags, test-only files, empty / non-Go / test-only / nested-module directories under a recursive root, YAML-hostile interface names, go.mod spellings). Every scenario runs under the sorted and the reversed map iteration order (instrumented binary). Invalid => non-zero exit with a diagnostic; valid => exit 0 and exactly the configured mocks; never a panic trace; distinct_nontrivial = invalid scenarios rejected")
+	c.Ev.Set("rule", "a valid 3-package configuration is perturbed by one fault at a time, the fault placed in each of the three packages and, where it can be written there, at package and interface level: missing listed interface (alone and with the package's interfaces selected through all / include-interface-regex / recursive at package or top level), missing package, type/syntax error, unknown template/formatter/key, unreadable / unparsable / failing template, schema-rejected template-data, cyclic and malformed templated values, invalid regexes, output the formatter rejects, output path occupied, existing file without force, conflicting mocks for one file (different source packages incl. same-named ones, pkgname, template), root-level and config-file-level faults; plus valid-but-unusual inputs (local types, blank-named type declarations, build tags, test-only files, empty / non-Go / test-only / nested-module directories under a recursive root, YAML-hostile interface names, go.mod spellings). Every scenario runs under the sorted and the reversed map iteration order (instrumented binary). Invalid => non-zero exit with a diagnostic; valid => exit 0 and exactly the configured mocks; never a panic trace; distinct_nontrivial = invalid scenarios rejected")
 	return nil
 }
